@@ -33,3 +33,7 @@ Qed.
 
 Lemma ex_canonical : dense_canonical 0 [1; 0; 2] /\ dense_canonical 0 (trim (Z.eqb 0) [1; 0; 2; 0; 0]).
 Proof. split; right; vm_compute; discriminate. Qed.
+
+Lemma ex_sparse : sparse_canonical 0 0 [(0, 1); (3, 5)] /\
+  sparse_of_dense (Z.eqb 0) 0 [1; 0; 0; 5] = [(0, 1); (3, 5)].
+Proof. split; [cbn; repeat split; lia | reflexivity]. Qed.
